@@ -304,19 +304,27 @@ def gen_lifecycle(rng, i):
     ops = two_agents(rng, 0, opts, rng.choice([(1, 0), (0, 1), (1, 1)]), (("10.0.0.1",), ("10.0.1.1",)), ncomp)
     ops.append("net,%s,%s,1,%d,3" % (rng.choice([0, 0, 0.2]), rng.choice([0, 0.1]), rng.choice([1, 50])))
     ops += ["gather,0,1", "gather,1,1", "run,20"] + signalling(rng, ncomp) + ["run,%d" % rng.choice([200, 2000, 6000])]
+    nxt = [2, 2]             # next stream id each agent will hand out
     for _ in range(rng.randrange(2, 12)):
         r = rng.random(); a = rng.randrange(2)
         if r < 0.15:
-            ops += ["restart,%d" % a, "run,%d" % rng.choice([0, 50, 500]), "creds,%d,%d,1" % (a, 1 - a)]
+            rop = (lambda x: "restart,%d" % x) if rng.random() < 0.5 else (lambda x: "restart_stream,%d,1" % x)
+            ops.append(rop(a))
+            if rng.random() < 0.5:     # the transition a restart causes is announced before the call returns: ask the getter straight away
+                ops += ["state,%d,1,%d" % (a, c) for c in range(1, ncomp + 1)]
+            ops += ["run,%d" % rng.choice([0, 50, 500]), "creds,%d,%d,1" % (a, 1 - a)]
             if rng.random() < 0.8:
-                ops += ["restart,%d" % (1 - a), "creds,%d,%d,1" % (1 - a, a)]
+                ops += [rop(1 - a), "creds,%d,%d,1" % (1 - a, a)]
             ops += ["gather,0,1", "gather,1,1", "run,20"]
             for c in range(1, ncomp + 1):
                 ops += ["cands,0,1,1,%d" % c, "cands,1,0,1,%d" % c]
         elif r < 0.25:
             ops += ["remove_stream,%d,1" % a, "run,%d" % rng.choice([0, 10, 500])]
             if rng.random() < 0.6:
-                ops += ["stream,%d,%d" % (a, ncomp)]
+                ops += ["stream,%d,%d" % (a, ncomp)]; nxt[a] += 1
+        elif r < 0.30:
+            # a further stream, added and gathered while the earlier ones have long finished gathering
+            ops += ["stream,%d,%d" % (a, rng.choice([1, 2])), "run,%d" % rng.choice([0, 20]), "gather,%d,%d" % (a, nxt[a]), "run,%d" % rng.choice([0, 20, 300])]; nxt[a] += 1
         elif r < 0.35:
             ops.append("set_selected,%d,1,%d" % (a, rng.randrange(1, ncomp + 1)))
         elif r < 0.45:
